@@ -24,6 +24,7 @@ type c06Summary struct {
 	CloneShared  []string          `json:"clone_shared"`
 	CloneMaps    []string          `json:"clone_fresh_maps"`
 	SelfAppends  []string          `json:"chain_methods_appending_to_statement_slices"`
+	WhereSwap    string            `json:"where_build_swap"`
 }
 
 func recvType(fd *ast.FuncDecl) string {
@@ -59,12 +60,13 @@ func exprString(e ast.Expr) string {
 }
 
 // classifyMerge: the class of one MergeClause body.
-//   MInPlace  an append whose first argument is a field of the expression stored in the clause
-//             (a variable bound by  v, ok := clause.Expression.(T) )
-//   MCopy     the stored slices are copied (make + copy, or make + append onto the new slice) and
-//             every append goes to a slice made in the body
-//   MNoSlice  no append, make or copy at all
-//   MUnknown  anything else
+//
+//	MInPlace  an append whose first argument is a field of the expression stored in the clause
+//	          (a variable bound by  v, ok := clause.Expression.(T) )
+//	MCopy     the stored slices are copied (make + copy, or make + append onto the new slice) and
+//	          every append goes to a slice made in the body
+//	MNoSlice  no append, make or copy at all
+//	MUnknown  anything else
 func classifyMerge(fd *ast.FuncDecl) string {
 	stored := map[string]bool{} // variables holding the expression already in the clause
 	fresh := map[string]bool{}  // variables assigned from make(...)
@@ -140,6 +142,46 @@ func c06Facts(repo string, w io.Writer) (interface{}, error) {
 			if fd, ok := d.(*ast.FuncDecl); ok && fd.Name.Name == "MergeClause" && fd.Body != nil {
 				sum.MergeClauses[recvType(fd)] = classifyMerge(fd)
 			}
+		}
+	}
+	// Where.Build: is the swap of a leading Or done on a slice made in the same block (MCopy), on the
+	// receiver's slice (MInPlace), or absent (MNoSlice)?
+	sum.WhereSwap = "MNoSlice"
+	if wf, err := parser.ParseFile(fset, filepath.Join(repo, "clause", "where.go"), nil, 0); err == nil {
+		for _, d := range wf.Decls {
+			fd, ok := d.(*ast.FuncDecl)
+			if !ok || fd.Name.Name != "Build" || recvType(fd) != "Where" || fd.Body == nil {
+				continue
+			}
+			ast.Inspect(fd.Body, func(n ast.Node) bool {
+				blk, ok := n.(*ast.BlockStmt)
+				if !ok {
+					return true
+				}
+				copied := false
+				for _, st := range blk.List {
+					as, ok := st.(*ast.AssignStmt)
+					if !ok {
+						continue
+					}
+					if len(as.Lhs) == 1 && exprString(as.Lhs[0]) == "where.Exprs" && len(as.Rhs) == 1 {
+						if c, ok := as.Rhs[0].(*ast.CallExpr); ok {
+							if id, ok := c.Fun.(*ast.Ident); ok && len(c.Args) > 0 &&
+								((id.Name == "append" && !strings.HasPrefix(exprString(c.Args[0]), "where.")) || id.Name == "make") {
+								copied = true
+							}
+						}
+					}
+					if len(as.Lhs) == 2 && exprString(as.Lhs[0]) == "where.Exprs[...]" {
+						if copied {
+							sum.WhereSwap = "MCopy"
+						} else {
+							sum.WhereSwap = "MInPlace"
+						}
+					}
+				}
+				return true
+			})
 		}
 	}
 	// Statement.clone
@@ -244,5 +286,6 @@ func c06Facts(repo string, w io.Writer) (interface{}, error) {
 	strs("clone_shared", sum.CloneShared)
 	strs("clone_fresh_maps", sum.CloneMaps)
 	strs("self_appends", sum.SelfAppends)
+	fmt.Fprintf(w, "Definition where_build_swap : mclass := %s.\n", sum.WhereSwap)
 	return sum, nil
 }
